@@ -961,6 +961,7 @@ func codecOtherModes(mode string, rng *rand.Rand, stt *stats, w *evWriter, n int
 		bases := basePayloads(rng)
 		emit := func(impl, entry, origin string, payload []byte) {
 			c := feedCase{Fam: "codec", Mode: "robust", Impl: impl, Entry: entry, Payload: b64(string(payload)), Origin: origin}
+			w.Inflight(c)
 			ev := runFeed(c)
 			stt.Calls++
 			stt.class("entry:" + entry)
